@@ -111,8 +111,19 @@
             (and (pair? y)
                 (equal? (car x) (car y))
                 (equal? (cdr x) (cdr y)))
-            (and (not (pair? y))
-                (eqv? x y))))
+            (if (vector? x)
+                (and (vector? y)
+                    (= (vector-length x) (vector-length y))
+                    (vector-equal? x y 0))
+                (and (not (pair? y))
+                    (eqv? x y)))))
+
+        ;;;;    vectors are equal? when their elements are
+        (define (vector-equal? x y i)
+        (if (= i (vector-length x))
+            #t
+            (and (equal? (vector-ref x i) (vector-ref y i))
+                (vector-equal? x y (+ i 1)))))
 
         (define (list? x)
         (if (eq? x '())
